@@ -4,7 +4,7 @@
    ones, membership in la / lq is exactly status Active / Queued, every other record is unlinked. *)
 From Coq Require Import List NArith Bool Lia.
 From Verif Require Import Common.Util Staker.Model Staker.Base Staker.Lists Staker.Inv Staker.RList Staker.Inv2 Staker.ProofsStep
-  Staker.ProofsUser Staker.ProofsUser2 Staker.ProofsHist Staker.ProofsEpoch Staker.ProofsAll.
+  Staker.ProofsUser Staker.ProofsUser2 Staker.ProofsHist Staker.Held Staker.ProofsEpoch Staker.ProofsAll Staker.ProofsCustody Staker.ProofsKeys.
 Import ListNotations.
 Open Scope N_scope.
 
@@ -141,13 +141,109 @@ Proof.
   destruct (set_changes_only_at_epoch c o _ la lq W I A Hb) as [E1 [E2 _]]. auto.
 Qed.
 
-(* ---- non-vacuity: the hypotheses of set_changes_only_at_epoch hold in the initial state ---- *)
-Example ex_hyps : exists la lq, WF (init 0 5) la lq /\ Inv1 (init 0 5) /\ InvA (init 0 5).
-Proof. exact (InvAll_init 0 5). Qed.
-Example ex_two_thirds : l_size (act (init 0 5)) = 0 /\ l_size (que (init 0 5)) * 3 < get_mbp (init 0 5) * 2.
-Proof. vm_compute. split; reflexivity. Qed.
+(* the total weight is the sum of the weights of the leader group as the staker reports it (this needs that the validation map
+   never holds two entries for one address, proved along histories in Staker/ProofsKeys.v) *)
+Theorem total_weight_is_sum_over_leader_group c d m ops ws :
+  leader_weights (run c (init d m) ops) = Ok ws -> g_lw (run c (init d m) ops) = sumN (map snd ws).
+Proof. exact (total_weight_is_leader_sum_hist c d m ops ws). Qed.
+
+(* ---- errors of the epoch step ---- *)
+
+(* a block always advances the block number; if SyncPOS returns an error (any non-revert error inside the transition or
+   housekeeping: arithmetic guard, missing record, exit-slot search exhausted) the staker state is exactly the state before the
+   block with the new number: packer and validator revert to their checkpoint and go on, that epoch's housekeeping is skipped *)
+Theorem block_number_always_advances c d m ops :
+  blk (step c (run c (init d m) ops) OBlock) = blk (run c (init d m) ops) + 1.
+Proof. exact (block_number_advances c _ (history_FullInv c d m ops)). Qed.
+
+Theorem failed_sync_skips_the_epoch c s :
+  (forall r, sync_pos c (blk s + 1) (w_blk (blk s + 1) s) <> Ok r) -> step c s OBlock = w_blk (blk s + 1) s.
+Proof. exact (block_error_skips_housekeeping c s). Qed.
+
+(* NOT proved: that SyncPOS never errs on reachable states.  It does, in the model and (replayed, corpus/C17/evictions-over-101.json)
+   in builtin/staker: with max-block-proposers raised above 101, 102 active validators offline past the threshold make the
+   eviction loop's exit-slot search (101 tries) fail at the eviction block; the whole housekeeping of that block is dropped *)
+Definition sync_never_errs_statement : Prop :=
+  forall c d m ops, exists r, let s := run c (init d m) ops in sync_pos c (blk s + 1) (w_blk (blk s + 1) s) = Ok r.
+
+Definition big_cfg : cfg := mkC 4 8 12 16 4 8 8 0 0.
+Definition big_ops : list op :=
+  map (fun i => OAddValidation (4096 + N.of_nat i) (61440 + N.of_nat i) 8 25000000) (seq 0 102) ++
+  repeat OBlock 5 ++ map (fun i => OSetOnline (4096 + N.of_nat i) false) (seq 0 102) ++ repeat OBlock 10.
+Theorem sync_never_errs_refuted : ~ sync_never_errs_statement.
+Proof.
+  intros H. destruct (H big_cfg 0 102 big_ops) as [r Hr]. vm_compute in Hr. discriminate.
+Qed.
+Example eviction_overflow_block_is_skipped :
+  let s := run big_cfg (init 0 102) big_ops in
+  (blk s, l_size (act s), answer big_cfg s OBlock, blk (step big_cfg s OBlock), l_size (act (step big_cfg s OBlock))) = (15, 102, (0, 6), 16, 102).
+Proof. vm_compute. reflexivity. Qed.
+
+(* ---- "never empty the set" ---- *)
+
+(* activations only add members (every member of the leader group is still a member after any number of activations) *)
+Theorem activations_only_add n b mx s la lq s' :
+  Full s la lq -> activate_n n b mx s = Ok s' ->
+  exists la' lq', Full s' la' lq' /\ forall x, In x la -> In x la'.
+Proof.
+  intros HF H. destruct (activate_n_ok b mx n s la lq s' HF H) as [la' [lq' [F' [_ [_ [Sub _]]]]]]. exists la', lq'. auto.
+Qed.
+
+(* the strong reading "the leader group never becomes empty once PoS is active" is FALSE for the model — and for builtin/staker
+   (replayed: corpus/C17/leader-group-empties.json): the scheduled exit of the last active validator with an empty queue empties it *)
+Definition leader_group_never_empties_statement : Prop :=
+  forall c d m ops o, 0 < l_size (act (run c (init d m) ops)) -> 0 < l_size (act (step c (run c (init d m) ops) o)).
+Definition one_cfg : cfg := mkC 4 8 12 16 4 8 8 0 0.
+Definition one_ops : list op := [OAddValidation 161 57505 8 25000000] ++ repeat OBlock 5 ++ [OSignalExit 161 57505] ++ repeat OBlock 6.
+Theorem leader_group_never_empties_refuted : ~ leader_group_never_empties_statement.
+Proof.
+  intros H. specialize (H one_cfg 0 1 one_ops OBlock). vm_compute in H. specialize (H eq_refl). discriminate.
+Qed.
+
+(* ---- non-vacuity on non-trivial states ---- *)
+
+Definition ex_cfg17 : cfg := mkC 4 8 12 16 4 8 8 0 0.
+(* three validators active (PoS from block 4), three more queued, one delegation, one exit signalled *)
+Definition ex_ops17 : list op :=
+  [OAddValidation 161 57505 8 25000000; OAddValidation 162 57506 8 26000000; OAddValidation 163 57507 12 27000000] ++ repeat OBlock 4 ++
+  [OAddValidation 164 57508 8 25000000; OAddValidation 165 57509 8 25000000; OAddValidation 166 57510 8 25000000;
+   OAddDeleg 161 1000 200; OSignalExit 162 57506; OBlock].
+Example ex_state17 :
+  let s := run ex_cfg17 (init 0 3) ex_ops17 in
+  (iterate true s, iterate false s) = (iterate true s, iterate false s) /\
+  exists la lq, WF s la lq /\ la = [161; 162; 163] /\ lq = [164; 165; 166] /\ Inv1 s /\ InvA s.
+Proof.
+  cbv zeta. split; [reflexivity|]. destruct (history_FullInv ex_cfg17 0 3 ex_ops17) as [la [lq [W I A J]]].
+  exists la, lq. split; auto.
+  destruct (leader_group_is_active_list _ la lq W) as [r [Hr [Hm _]]]. destruct (queued_group_is_queued_list _ la lq W) as [r' [Hr' [Hm' _]]].
+  vm_compute in Hr. inversion Hr; subst r. vm_compute in Hr'. inversion Hr'; subst r'. cbn in Hm, Hm'. auto.
+Qed.
+(* removal from the middle of that queued list satisfies the hypotheses of remove_keeps_wellformed and yields [164; 166] *)
+Example ex_remove_middle :
+  let s := run ex_cfg17 (init 0 3) ex_ops17 in
+  exists v s1 e1, getv s 165 = Some v /\ wf_list s (que s) [164; 165; 166] /\ ll_remove false 165 v s = Ok (s1, e1) /\ wf_list s1 (que s1) [164; 166].
+Proof.
+  cbv zeta. destruct ex_state17 as [_ [la [lq [W [-> [-> _]]]]]].
+  destruct (getv (run ex_cfg17 (init 0 3) ex_ops17) 165) as [v|] eqn:Ev; [|vm_compute in Ev; discriminate].
+  destruct (ll_remove false 165 v (run ex_cfg17 (init 0 3) ex_ops17)) as [[s1 e1]| |] eqn:Er;
+    [|vm_compute in Ev; inversion Ev; subst v; vm_compute in Er; discriminate|vm_compute in Ev; inversion Ev; subst v; vm_compute in Er; discriminate].
+  exists v, s1, e1. split; auto. split; [apply (wf_q _ _ _ W)|]. split; auto.
+  destruct (remove_keeps_wellformed false 165 v _ s1 e1 [164; 165; 166] v Er (wf_q _ _ _ W)) as [l1 [l2 [El [Hw _]]]]; auto; [cbn; auto|].
+  destruct l1 as [|x1 [|x2 [|x3 t]]]; cbn in El; inversion El; subst; try (destruct t; discriminate). exact Hw.
+Qed.
+(* the hypotheses of set_changes_only_at_epoch on that state, for a user operation and for the non-epoch block 6 *)
+Example ex_set_changes_hyps :
+  let s := run ex_cfg17 (init 0 3) ex_ops17 in
+  (blk s + 1) mod c_epoch ex_cfg17 <> 0 /\ leader_weights s = Ok [(161, 25000000); (162, 26000000); (163, 27000000)] /\ g_lw s = 78000000.
+Proof. vm_compute. repeat split; discriminate || reflexivity. Qed.
 
 Print Assumptions lists_wellformed.
+Print Assumptions total_weight_is_sum_over_leader_group.
+Print Assumptions block_number_always_advances.
+Print Assumptions failed_sync_skips_the_epoch.
+Print Assumptions sync_never_errs_refuted.
+Print Assumptions activations_only_add.
+Print Assumptions leader_group_never_empties_refuted.
 Print Assumptions total_weight_is_sum_of_active_weights.
 Print Assumptions at_most_one_exit_per_epoch.
 Print Assumptions set_changes_only_at_epoch_along_histories.
